@@ -124,6 +124,12 @@ func main() {
 		fmt.Fprintln(os.Stderr, "need -out")
 		os.Exit(2)
 	}
+	if abs, err := filepath.Abs(*out); err == nil {
+		*out = abs // later passes change the working directory
+	}
+	if abs, err := filepath.Abs(*repo); err == nil {
+		*repo = abs
+	}
 	root, err := loadPkg(*repo, "github.com/ModChain/secp256k1")
 	if err != nil {
 		fmt.Fprintln(os.Stderr, "load:", err)
